@@ -384,9 +384,12 @@ func (w *checker) run(c caseT) {
 
 	// ---- consistency arms: compression must not change the outcome
 	exact := true // outcome comparable run-to-run (no token-length jitter at the boundary)
-	if c.Kind == "exchange" && c.Wire > 0 {
+	if c.Kind == "exchange" {
 		for i, rp := range ref.Resps {
-			if i > 0 && abs64(int64(rp.PlainLen)-c.Wire) <= tokenJitter {
+			if i > 0 && c.Wire > 0 && abs64(int64(rp.PlainLen)-c.Wire) <= tokenJitter {
+				exact = false
+			}
+			if ipc, _ := upTotals(ref.Ups[i]); i > 0 && c.ExtCap > 0 && ipc > 0 && abs64(ipc-c.ExtCap) <= tokenJitter {
 				exact = false
 			}
 		}
@@ -495,7 +498,9 @@ func (w *checker) checkLockstep(c caseT, ref, got runT, wit map[string]any, sig 
 				w.viol(sig(c.CapKind, "refusal-carries-cursor"), step+": error response carries a cursor", wit)
 			}
 			fitsWire := c.Wire == 0 || L0 <= c.Wire-jitter
-			fitsExt := c.ExtCap == 0 || U0 <= c.ExtCap
+			// (an externalised exchange batch carries the cursor inside the upload: same jitter;
+			// an upload that did happen in this run and is over the cap justifies the refusal)
+			fitsExt := c.ExtCap == 0 || (U0 <= c.ExtCap-jitter && U <= c.ExtCap)
 			if fitsWire && fitsExt {
 				w.viol(sig(c.CapKind, "refused-under-cap"), step+": refused ("+eb.ErrMessage+") although body and uploads fit the caps", wit)
 			}
@@ -607,7 +612,7 @@ func main() {
 	slog.SetDefault(slog.New(slog.NewTextHandler(io.Discard, nil)))
 	svc.SetSink(nil)
 	w := &checker{r: r, store: wk.NewMemStorage(), clusters: map[string]*wk.Cluster{}}
-	n := r.N(1000, 30000)
+	n := r.N(1000, 60000)
 	for i := 0; i < n; i++ {
 		c := genCase(r, i)
 		w.run(c)
